@@ -152,3 +152,27 @@ package sm2
 //@ ensures toolong: len(id) >= 8192 ==> !result0 && nonnil(result1)
 //@ ensures iff: len(id) < 8192 ==> result0 == (len(pubx) == 32 && len(puby) == 32 && len(r) == 32 && len(s) == 32 && std_verify(be(pubx), be(puby), bedigest(e_stream_id(id, pubx, puby, msg)), be(r), be(s)))
 //@ ensures err: result0 ==> !nonnil(result1)
+
+// ---------------------------------------------------------------------------------------------
+// Constant-time contracts (property C08)
+// ---------------------------------------------------------------------------------------------
+
+//@ func sm2.SignHashed#ct
+//@ secret priv
+//@ declassify utils.ConstantTimeCmp(K[:], nBytes[:], 32) >= 0 || utils.ConstantTimeCmp(K[:], zeroK[:], 32) == 0 : rejection of an out-of-range nonce candidate; the candidate is discarded (accept/reject verdict)
+//@ declassify utils.ConstantTimeCmp(K[:], nBytes[:], 32) >= 0 : same verdict, first half
+//@ declassify sInt.Sign() == 0 : s is the published signature value; s = 0 restarts with a fresh nonce (verdict)
+//@ declassify &sInt : s is the published signature value
+
+//@ func sm2.GenerateKey#ct
+//@ declassify pub.Bytes() : the affine coordinates of [d]G are the public key
+
+//@ func sm2.DerivePublic#ct
+//@ secret priv
+//@ declassify pub.Bytes() : the affine coordinates of [d]G are the public key
+
+//@ func sm2.TestPrivateKey#ct
+//@ secret priv
+//@ declassify acc == 0 : zero-key verdict
+//@ declassify cmp == -1 : range verdict (the result of the function)
+//@ public_result
